@@ -182,10 +182,15 @@ class Fresh(Relation):
     def strategy(self, tier):
         return st.fixed_dictionaries({
             'history': st.lists(op_strategy(), min_size=3, max_size=20),
+            # one serialisation whose OPTIONS vary (same objects, other
+            # precision / fmt / radunit), one I/O operation, one free choice
             'targets': st.tuples(
+                st.tuples(st.sampled_from(['serialize', 'serialize_one']),
+                          st.sampled_from([2, 10, 11, 12, 13, 14, 0, 1, 3]),
+                          st.integers(0, 5), st.integers(0, 5)).map(list),
                 st.tuples(st.sampled_from(list(IO_OPS)), st.integers(0, 13),
                           st.integers(0, 5), st.integers(0, 5)).map(list),
-                op_strategy(), op_strategy()).map(list),
+                op_strategy()).map(list),
             'hashseed': st.integers(0, 3)})
 
     def check(self, sp, ctx):
